@@ -3,6 +3,7 @@
 #include <math.h>
 
 int vg_share = 1;
+int vg_wild_half = 0; /* half-width float items may hold any single value (outside C03's domain, inside C07's and C11's) */
 static cbor_item_t* pool[16];
 static int npool;
 
@@ -11,6 +12,14 @@ static uint64_t bval(void) {
   return vh_randn(3) ? bnd[vh_randn(11)] : vh_rand() >> vh_randn(64);
 }
 static float half_value(void) {
+  if (vg_wild_half && !vh_randn(3)) {
+    static const float w[] = {65536.0f, 65520.0f, 65519.99f, 1e6f, -1e30f, 3.4028235e38f, 1e-8f, 5.9604645e-8f, 2.9802322e-8f, 6.1035156e-5f, 6.0975552e-5f, 1.0009766f, 1.00048828125f, 0.1f, -0.3f, 1e-40f};
+    if (vh_randn(2)) return w[vh_randn(sizeof w / sizeof *w)];
+    uint32_t u = (uint32_t)vh_rand();
+    float f;
+    memcpy(&f, &u, 4);
+    return f;
+  }
   /* a float that is exactly representable as a half (or an infinity / NaN) */
   unsigned h = (unsigned)vh_randn(65536);
   int e = (h >> 10) & 31, m = h & 1023;
@@ -75,6 +84,8 @@ static cbor_item_t* leaf_by_setters(void) {
 
 static cbor_item_t* leaf(void) {
   if (vh_randn(4) == 0) return leaf_by_setters();
+  /* a definite string whose handle was never set: documented as a valid empty string (NULL handle, length 0) */
+  if (vh_randn(24) == 0) return vh_randn(2) ? cbor_new_definite_bytestring() : cbor_new_definite_string();
   uint64_t v = bval();
   switch (vh_randn(16)) {
     case 0: return cbor_build_uint8((uint8_t)v);
